@@ -668,3 +668,89 @@ pub fn self_test() -> Result<(), String> {
     }
     Ok(())
 }
+
+// ---------------------------------------------------------------------------
+// Reference factorisation of 64-bit integers (trial division + Brent's rho with u128 `%`)
+
+fn rho_brent(n: u64, c: u64) -> u64 {
+    // returns a non-trivial divisor of the odd composite n, or n on failure
+    let f = |x: u64| ((x as u128 * x as u128 + c as u128) % n as u128) as u64;
+    let (mut y, mut r, mut q, mut g) = (2u64, 1u64, 1u64, 1u64);
+    let (mut x, mut ys) = (0u64, 0u64);
+    let m = 128;
+    while g == 1 {
+        x = y;
+        for _ in 0..r {
+            y = f(y);
+        }
+        let mut k = 0;
+        while k < r && g == 1 {
+            ys = y;
+            for _ in 0..m.min(r - k) {
+                y = f(y);
+                q = mulmod64(q, x.abs_diff(y), n);
+            }
+            g = gcd64(q, n);
+            k += m;
+        }
+        r *= 2;
+        if r > 1 << 34 {
+            return n;
+        }
+    }
+    if g == n {
+        loop {
+            ys = f(ys);
+            g = gcd64(x.abs_diff(ys), n);
+            if g > 1 {
+                break;
+            }
+        }
+    }
+    g
+}
+
+/// Prime factorisation (with multiplicity, sorted) of any u64 >= 2; empty for 0 and 1.
+pub fn ref_factor64(n: u64) -> Vec<u64> {
+    let mut out = vec![];
+    if n < 2 {
+        return out;
+    }
+    let mut n = n;
+    for p in [2u64, 3, 5, 7, 11, 13, 17, 19, 23, 29, 31, 37, 41, 43, 47] {
+        while n % p == 0 {
+            out.push(p);
+            n /= p;
+        }
+    }
+    let mut stack = vec![n];
+    while let Some(m) = stack.pop() {
+        if m == 1 {
+            continue;
+        }
+        if ref_isprime64(m) {
+            out.push(m);
+            continue;
+        }
+        // perfect square shortcut (rho is slow on p^2)
+        let s = isqrt_u128(m as u128) as u64;
+        if s * s == m {
+            stack.push(s);
+            stack.push(s);
+            continue;
+        }
+        let mut c = 1;
+        let d = loop {
+            let d = rho_brent(m, c);
+            if d != m && d != 1 {
+                break d;
+            }
+            c += 1;
+            assert!(c < 200, "rho failed on {}", m);
+        };
+        stack.push(d);
+        stack.push(m / d);
+    }
+    out.sort();
+    out
+}
